@@ -147,6 +147,23 @@ macro_rules! chain_row {
                         $(C::$V(c) => c.encode_symbol(sym, TV::<$Pr, $P>::new(tab)).map_err(enc_err),)+
                     }
                 }
+                /// batch forms; `items` in decoding order (the `_reverse` methods reverse it themselves)
+                pub fn encode_batch(&mut self, items: &[(usize, Tab)], form: u8) -> Result<(), EncErr> {
+                    use constriction::stream::TryCodingError;
+                    match self {
+                        $(C::$V(c) => match form {
+                            1 => c.encode_symbols_reverse(items.iter().map(|(s, t)| (*s, TV::<$Pr, $P>::new(t)))).map_err(enc_err),
+                            2 => c
+                                .try_encode_symbols_reverse(items.iter().map(|(s, t)| Ok::<_, core::convert::Infallible>((*s, TV::<$Pr, $P>::new(t)))))
+                                .map_err(|e| match e {
+                                    TryCodingError::CodingError(e) => enc_err(e),
+                                    TryCodingError::InvalidEntropyModel(x) => match x {},
+                                }),
+                            3 if items.iter().all(|(_, t)| *t == items[0].1) => c.encode_iid_symbols_reverse(items.iter().map(|(s, _)| *s), TV::<$Pr, $P>::new(&items[0].1)).map_err(enc_err),
+                            _ => c.encode_symbols(items.iter().rev().map(|(s, t)| (*s, TV::<$Pr, $P>::new(t)))).map_err(enc_err),
+                        },)+
+                    }
+                }
                 /// `change_precision` to the row's precision number `to` (the coder is cloned
                 /// first because the library consumes it even when the change fails)
                 pub fn change(&self, to: u8) -> Result<C, String> {
@@ -286,7 +303,11 @@ macro_rules! chain_row {
                         continue;
                     }
                     let sel = coder.sel();
-                    let tab = gen_tab(src, PRECS[sel as usize], sel, 8);
+                    // sometimes the same model again (i.i.d. runs for the batch forms)
+                    let tab = match steps.last() {
+                        Some(Step::Dec(_, prev)) if prev.sel == sel && src.ratio(1, 4) => prev.clone(),
+                        _ => gen_tab(src, PRECS[sel as usize], sel, 8),
+                    };
                     match coder.decode(&tab) {
                         Ok(s) => {
                             if ctx.param == 10 {
@@ -354,16 +375,46 @@ macro_rules! chain_row {
                     }
                 };
                 // ---- encode back in reverse, undoing the precision changes -----------------
-                for (i, step) in steps.iter().enumerate().rev() {
-                    match step {
-                        Step::Dec(s, tab) => match coder.encode(*s, tab) {
-                            Ok(()) => {}
-                            Err(e) => vfail!("C13/reencode_failed", "re-encoding step {} (symbol {} with {}) -> {:?}", i, s, tab.render(), e),
-                        },
-                        Step::Change(from, _to) => match coder.change(*from) {
-                            Ok(c) => coder = c,
-                            Err(e) => vfail!("C13/undo_precision_change_failed", "undoing the precision change of step {} failed: {}", i, e),
-                        },
+                // (per symbol, or every run of symbols between two precision changes through one of the
+                // batch forms; the form is a function of choices already made)
+                let form = ((n_dec + way as usize + data.len()) % 4) as u8;
+                ctx.label(["reencode:per_symbol", "reencode:encode_symbols_reverse", "reencode:try_encode_symbols_reverse", "reencode:encode_symbols(rev)_or_iid_reverse"][form as usize]);
+                let mut i = steps.len();
+                while i > 0 {
+                    match &steps[i - 1] {
+                        Step::Dec(s, tab) if form == 0 => {
+                            match coder.encode(*s, tab) {
+                                Ok(()) => {}
+                                Err(e) => vfail!("C13/reencode_failed", "re-encoding step {} (symbol {} with {}) -> {:?}", i - 1, s, tab.render(), e),
+                            }
+                            i -= 1;
+                        }
+                        Step::Dec(..) => {
+                            let end = i;
+                            let mut start = i;
+                            while start > 0 && matches!(steps[start - 1], Step::Dec(..)) {
+                                start -= 1;
+                            }
+                            let items: Vec<(usize, Tab)> = steps[start..end]
+                                .iter()
+                                .map(|st| match st {
+                                    Step::Dec(s, t) => (*s, t.clone()),
+                                    Step::Change(..) => unreachable!(),
+                                })
+                                .collect();
+                            match coder.encode_batch(&items, form) {
+                                Ok(()) => {}
+                                Err(e) => vfail!("C13/reencode_failed", "re-encoding steps {}..{} through batch form {} -> {:?}", start, end, form, e),
+                            }
+                            i = start;
+                        }
+                        Step::Change(from, _to) => {
+                            match coder.change(*from) {
+                                Ok(c) => coder = c,
+                                Err(e) => vfail!("C13/undo_precision_change_failed", "undoing the precision change of step {} failed: {}", i - 1, e),
+                            }
+                            i -= 1;
+                        }
                     }
                 }
                 if extra_encode {
